@@ -205,7 +205,8 @@ def validate_trace(ctx, trace, tag, concurrent=False):
                         cls = line["tok"]
                 sig = dict(kind=line["kind"], op=line["op"], arg_class=cls, divergence=div)
                 if concurrent:
-                    sig = dict(kind=line["kind"], op=line["op"], divergence="result_differs_from_isolated")
+                    sig = dict(kind=("units" if line["kind"] == "units0" else line["kind"]), op=line["op"],
+                               divergence="result_differs_from_isolated")
                 ctx.violation(sig, dict(trace_line=line, why=why,
                                         note="InstanceTrace.tla rejects this recorded call (history up to it in the replay file)",
                                         history=[l for l in lines[:j["line"]]][-20:]))
